@@ -62,7 +62,9 @@ function makeWorld(names, valuation) {
         return mkProbe(label + '.' + k);
       },
       set(t, k, v) { push('set ' + label + '.' + String(k) + ' = ' + repr(v)); return true; },
-      has(t, k) { push('has ' + String(k) + ' in ' + label); return primOf(label + String(k)) % 2 === 0; },
+      // a function / class used as a key is converted to its source text (Function.prototype.toString: excluded by the
+      // property); esbuild re-formats only its white space, so the answer must not depend on white space
+      has(t, k) { push('has ' + String(k) + ' in ' + label); return primOf(label + String(k).replace(/\s+/g, '')) % 2 === 0; },
       deleteProperty(t, k) { push('delete ' + label + '.' + String(k)); return true; },
       apply(t, th, args) { push('call ' + label + '(this=' + repr(th) + '; ' + args.map(repr).join(', ') + ')'); return mkProbe(label + '()' + (calls++)); },
       construct(t, args) { push('new ' + label + '(' + args.map(repr).join(', ') + ')'); return mkProbe(label + '{}' + (calls++)); },
